@@ -2,6 +2,7 @@ import NixModel.Lemmas.C14Exact
 import NixModel.Lemmas.C14Units
 import NixModel.Lemmas.C14Paths
 import NixModel.Lemmas.C14Guards
+import NixModel.Lemmas.C14DimLink
 import Mathlib.Data.List.Nodup
 
 /-!
@@ -1122,5 +1123,62 @@ example :
     fired (sampledEnv { kind := .sample, index := 1, ticks := [], nLabels := 0, interval := some (1/1000000), unit := none })
       guards_check_sampled_dimension = .ok [] := by
   refine ⟨?_, ?_, ?_, ?_, ?_, ?_, ?_⟩ <;> decide +kernel
+
+/-! ## range descriptors whose ticks come through a link (`Pure/DimLink.lean`) -/
+
+/-- A range descriptor whose ticks are the vector a DataArray link selects (`RangeDimension.ticks` →
+`DimensionLink.values`): the tick count message is in the array's list iff the PROVIDER's extent along the axis the
+index marks with `-1` differs from the data extent the descriptor stands at - for every provider, index and data;
+`is_alias` plays no role. -/
+theorem C14_linked_ticks_count (da : DataArray) (idx : Nat) (d : Dim) (n : Nat)
+    (shape : List Nat) (index : List Int) (data : List Rat)
+    (hd : dimAt da idx = some (d, n)) (hk : d.kind = .range)
+    (hv : DimLink.linkedTicks shape index data = .ok d.ticks) :
+    .dim .RangeDimTicksMismatch idx ∈ checkDataArray da ↔ DimLink.axisLen shape index ≠ some n := by
+  rw [C14_complete_RangeDimTicksMismatch]
+  have hl := DimLink.values_length shape index data d.ticks hv
+  constructor
+  · rintro ⟨d', n', h, _, hne⟩
+    rw [hd] at h
+    cases h
+    rw [hl]
+    simpa using hne
+  · intro h
+    refine ⟨d, n, hd, hk, ?_⟩
+    rw [hl] at h
+    simpa using h
+
+/-- the read of a link never fails when the index is one with exactly one `-1` and every other coordinate inside the
+provider, and its length is the provider's extent along the marked axis -/
+theorem C14_linked_ticks_read (shape : List Nat) (index : List Int) (data : List Rat)
+    (hc : DimLink.coordsOk shape index = true) (hlen : data.length = DimLink.blockSize shape) :
+    ∃ v, DimLink.linkedTicks shape index data = .ok v ∧ DimLink.axisLen shape index = some v.length := by
+  obtain ⟨v, hv⟩ := DimLink.values_total shape index data hc hlen
+  exact ⟨v, hv, DimLink.values_length shape index data v hv⟩
+
+/-- `link_data_array` accepts every such index, and its verdict depends on the RANK of the provider only: a provider
+whose selected vector has any other length is accepted as well -/
+theorem C14_link_accepts_any_length (shape shape' : List Nat) (index : List Int)
+    (hr : shape.length = shape'.length) :
+    DimLink.linkDataArray shape index = DimLink.linkDataArray shape' index ∧
+    (DimLink.coordsOk shape index = true → DimLink.linkDataArray shape index = .ok ()) := by
+  refine ⟨by simp [DimLink.linkDataArray, hr], fun hc => ?_⟩
+  obtain ⟨h1, h2⟩ := DimLink.coordsOk_accepted shape index hc
+  simp [DimLink.linkDataArray, h1, h2]
+
+/-- after an accepted `link_data_array` the descriptor IS an alias in the sense of `is_alias`, whatever array it is
+linked to: `is_alias` says nothing about where the ticks come from or how many there are -/
+theorem C14_linked_is_alias (s : DimLink.RangeStore) : DimLink.isAlias (DimLink.afterLinkArray s) = true :=
+  DimLink.isAlias_afterLinkArray s
+
+/-- row 1 of a 3x4 provider; a column of it; a coordinate outside the provider; an index with two `-1` is refused -/
+example :
+    DimLink.linkedTicks [3, 4] [1, -1] [0, 1, 2, 3, 4, 5, 6, 7, 8, 9, 10, 11] = .ok [4, 5, 6, 7] ∧
+    DimLink.linkedTicks [3, 4] [-1, 2] [0, 1, 2, 3, 4, 5, 6, 7, 8, 9, 10, 11] = .ok [2, 6, 10] ∧
+    DimLink.linkedTicks [3, 4] [3, -1] [0, 1, 2, 3, 4, 5, 6, 7, 8, 9, 10, 11] = .error .indexError ∧
+    DimLink.linkDataArray [3, 4] [-1, -1] = .error .valueError ∧
+    DimLink.linkDataArray [3, 4] [-1] = .error .incompatibleDimensions ∧
+    DimLink.linkDataArray [3, 4] [1, -1] = .ok () := by
+  refine ⟨?_, ?_, ?_, ?_, ?_, ?_⟩ <;> decide +kernel
 
 end Nix.C14
